@@ -76,7 +76,7 @@ class C18(Prop):
              "overlays (new keys, overrides, empty values) with the parent's environment changing between spawns, both "
              "loky start methods, initializers (ok / raising / exiting / killed) with workers brought in by time-outs, "
              "memory-leak exits and resizes, and plain LokyProcess children ending with every exit code and several "
-             "signals")
+             "signals, their exit status read by the joining thread and by 1-2 concurrently polling threads")
     assumptions = ["close_fds/pass_fds semantics and the wait-status encoding are the kernel model's",
                    "'deliberately passed' descriptors = the keep-list handed to fork_exec, cross-checked by usage: every "
                    "inherited descriptor must be used or closed by the child, or be a tracker handle / the liveness sentinel's write end",
